@@ -269,6 +269,13 @@ class Interp:
                 if mdd.restrict(W.dd, v.var, v.mask) is MDD_FALSE:
                     return False
                 raise NeedDecision(v)
+            if v.dd is not None:
+                mdd = self.eng.mdd
+                if mdd.conj(W.dd, mdd.neg(v.dd)) is MDD_FALSE:
+                    return True
+                if mdd.conj(W.dd, v.dd) is MDD_FALSE:
+                    return False
+                raise NeedDecision(v)
             k = v.key()
             if k in W.decided:
                 return W.decided[k]
